@@ -7,6 +7,7 @@ import (
 	"net"
 	"strings"
 	"testing"
+	"time"
 
 	"github.com/omec-project/upf-epc/pfcpiface"
 	"github.com/wmnsk/go-pfcp/ie"
@@ -476,6 +477,12 @@ func genC01(t *rapid.T) model.Case {
 		}
 		rop := model.Op{Kind: "raw", Peer: 0, Seq: seq, Raw: hex.EncodeToString(raw), PatchSEID: patch, Sess: 0,
 			Note: kind, Extra: map[string]any{"mut": d}}
+		if hbOn, _ := conf["hb"].(bool); hbOn && state != "none" && state != "released" && rapid.IntRange(0, 2).Draw(t, "holdhb") == 0 {
+			// the datagram arrives while a Heartbeat Request of the agent's own is outstanding on the association: the
+			// peer holds its answer back, the datagram is injected, the answer follows (a re-association, a release
+			// or a session request that coincides with the agent's heartbeat must not wedge the connection)
+			rop.Extra["holdhb"] = true
+		}
 		if kind != "est" && rapid.IntRange(0, 7).Draw(t, "flood") == 0 {
 			// the same datagram many times over (a peer gone wild, or a replaying middle box): whatever a single
 			// copy costs must not add up to a stuck association (full queue, exhausted table)
@@ -527,7 +534,24 @@ func runC01(c model.Case, ev *Ev) error {
 	fuzzCase, _ := c.Conf["fuzz"].(bool)
 	fuzzAccepted := false
 	for i, op := range c.Ops {
+		held := false
+		if hold, _ := op.Extra["holdhb"].(bool); hold && op.Kind == "raw" {
+			// hold the answers to the agent's heartbeats back and inject the datagram once one is outstanding
+			pp := run.Peers[op.Peer].P
+			since := time.Now()
+			pp.SetOnHB(func(int, uint32) (bool, time.Duration) { return true, 120 * time.Millisecond })
+			held = true
+			for w := time.Now().Add(600 * time.Millisecond); time.Now().Before(w); time.Sleep(time.Millisecond) {
+				if hs := pp.HBSeen(); len(hs) > 0 && hs[len(hs)-1].TS.After(since) {
+					ev.Label("injected-into-outstanding-agent-heartbeat")
+					break
+				}
+			}
+		}
 		o := run.Exec(op)
+		if held {
+			run.Peers[op.Peer].P.SetOnHB(nil)
+		}
 		if op.Kind != "raw" {
 			// history ops are valid requests: they only set the stage
 			if o.NoResp {
